@@ -285,3 +285,108 @@ Proof.
   - destruct a as [ | | |l]; try discriminate. destruct b as [ | | |r]; try discriminate.
     cbn [nvalx num_partial_cmp] in *. now rewrite (f64_cmp_xq l r va vb Va Vb).
 Qed.
+
+Lemma cmp_float_float p a b va vb :
+  f64_to_Q a = Some va -> f64_to_Q b = Some vb ->
+  num_partial_cmp p (Float a) (Float b) = Ok (Some (va ?= vb)%Q).
+Proof. intros Ha Hb. cbn [num_partial_cmp]. now rewrite (f64_cmp_finite a b va vb Ha Hb). Qed.
+
+(* ---- PartialEq and the derived < on all non-NaN numbers; transitivity outside the
+   rounding class *)
+Lemma f64_eqb_cmp a b : f64_eqb a b = match f64_cmp a b with Some Eq => true | _ => false end.
+Proof. reflexivity. Qed.
+
+Lemma exact_in_f64_to_f64 x : exact_in_f64 x = true -> exists f, num_to_f64 x = Some f.
+Proof.
+  destruct x as [z|z|n d|f]; try (eexists; reflexivity).
+  unfold exact_in_f64. destruct (num_to_f64 (Rational n d)) as [f|]; [eexists; reflexivity|discriminate].
+Qed.
+
+(* with a Float among the operands, both == and partial_cmp run on the doubles *)
+Lemma mixed_as_f64 p a b f g : is_exact a && is_exact b = false ->
+  num_to_f64 a = Some f -> num_to_f64 b = Some g ->
+  num_partial_cmp p a b = Ok (f64_cmp f g) /\ num_eq p a b = Ok (f64_eqb f g).
+Proof.
+  intros NX Hf Hg.
+  destruct a as [l|l|ln ld|l]; destruct b as [r|r|rn rd|r]; try discriminate;
+    cbn [num_to_f64 num_partial_cmp num_eq] in *; unfold r_f64_unwrap;
+    try rewrite Hf; try rewrite Hg; try (inversion Hf; subst); try (inversion Hg; subst); split; reflexivity.
+Qed.
+
+Theorem eq_all_pairs_inf p a b va vb :
+  wfb a = true -> wfb b = true -> nonnan a = true -> nonnan b = true ->
+  float_side_exact a b = true ->
+  nvalx a = Some va -> nvalx b = Some vb ->
+  num_eq p a b = Ok (is_Eq (xq_cmp va vb)).
+Proof.
+  intros Wa Wb Na Nb S Va Vb.
+  pose proof (cmp_all_pairs_inf p a b va vb Wa Wb Na Nb S Va Vb) as C.
+  destruct (is_exact a && is_exact b) eqn:X.
+  - apply andb_true_iff in X. destruct X as [Xa Xb].
+    destruct a; try discriminate; destruct b; try discriminate; cbn [nvalx] in Va, Vb;
+      inversion Va; inversion Vb; cbn [xq_cmp]; now apply eq_exact.
+  - unfold float_side_exact in S. rewrite X in S. cbn [orb] in S. apply andb_true_iff in S. destruct S as [Ea Eb].
+    destruct (exact_in_f64_to_f64 a Ea) as [f Hf]. destruct (exact_in_f64_to_f64 b Eb) as [g Hg].
+    destruct (mixed_as_f64 p a b f g X Hf Hg) as [C1 E1].
+    rewrite C1 in C. inversion C as [C']. rewrite E1, f64_eqb_cmp, C'. reflexivity.
+Qed.
+
+Lemma xq_cmp_eq_trans a b c : xq_cmp a b = Eq -> xq_cmp b c = Eq -> xq_cmp a c = Eq.
+Proof.
+  destruct a, b, c; cbn [xq_cmp]; try discriminate; try reflexivity.
+  rewrite <- !Qeq_alt. intros H1 H2. now rewrite H1.
+Qed.
+Lemma xq_cmp_lt_trans a b c : xq_cmp a b = Lt -> xq_cmp b c = Lt -> xq_cmp a c = Lt.
+Proof.
+  destruct a, b, c; cbn [xq_cmp]; try discriminate; try reflexivity.
+  rewrite <- !Qlt_alt. apply Qlt_trans.
+Qed.
+
+(* = is transitive on all non-NaN numbers (infinities included) whenever no comparison of
+   the three rounds an exact operand: C09_full outside the class exact-vs-inexact-by-rounding *)
+Theorem eq_trans_all p a b c :
+  wfb a = true -> wfb b = true -> wfb c = true ->
+  nonnan a = true -> nonnan b = true -> nonnan c = true ->
+  float_side_exact a b = true -> float_side_exact b c = true -> float_side_exact a c = true ->
+  num_eq p a b = Ok true -> num_eq p b c = Ok true -> num_eq p a c = Ok true.
+Proof.
+  intros Wa Wb Wc Na Nb Nc Sab Sbc Sac.
+  destruct (nonnan_nvalx a Na) as [va Va]. destruct (nonnan_nvalx b Nb) as [vb Vb].
+  destruct (nonnan_nvalx c Nc) as [vc Vc].
+  rewrite (eq_all_pairs_inf p a b va vb), (eq_all_pairs_inf p b c vb vc), (eq_all_pairs_inf p a c va vc) by assumption.
+  intros H1 H2. inversion H1 as [H1']. inversion H2 as [H2']. f_equal.
+  destruct (xq_cmp va vb) eqn:C1; try discriminate. destruct (xq_cmp vb vc) eqn:C2; try discriminate.
+  now rewrite (xq_cmp_eq_trans va vb vc C1 C2).
+Qed.
+
+Theorem lt_trans_all p a b c :
+  wfb a = true -> wfb b = true -> wfb c = true ->
+  nonnan a = true -> nonnan b = true -> nonnan c = true ->
+  float_side_exact a b = true -> float_side_exact b c = true -> float_side_exact a c = true ->
+  num_lt p a b = Ok true -> num_lt p b c = Ok true -> num_lt p a c = Ok true.
+Proof.
+  intros Wa Wb Wc Na Nb Nc Sab Sbc Sac.
+  destruct (nonnan_nvalx a Na) as [va Va]. destruct (nonnan_nvalx b Nb) as [vb Vb].
+  destruct (nonnan_nvalx c Nc) as [vc Vc].
+  unfold num_lt.
+  rewrite (cmp_all_pairs_inf p a b va vb), (cmp_all_pairs_inf p b c vb vc), (cmp_all_pairs_inf p a c va vc) by assumption.
+  cbn [bind]. intros H1 H2. inversion H1 as [H1']. inversion H2 as [H2']. f_equal.
+  destruct (xq_cmp va vb) eqn:C1; try discriminate. destruct (xq_cmp vb vc) eqn:C2; try discriminate.
+  now rewrite (xq_cmp_lt_trans va vb vc C1 C2).
+Qed.
+
+(* trichotomy on all non-NaN numbers under the side condition *)
+Theorem trichotomy_all p a b :
+  wfb a = true -> wfb b = true -> nonnan a = true -> nonnan b = true ->
+  float_side_exact a b = true ->
+  exists lt eq gt, num_lt p a b = Ok lt /\ num_eq p a b = Ok eq /\ num_gt p a b = Ok gt /\
+    ((lt = true /\ eq = false /\ gt = false) \/ (lt = false /\ eq = true /\ gt = false) \/
+     (lt = false /\ eq = false /\ gt = true)).
+Proof.
+  intros Wa Wb Na Nb S.
+  destruct (nonnan_nvalx a Na) as [va Va]. destruct (nonnan_nvalx b Nb) as [vb Vb].
+  unfold num_lt, num_gt.
+  rewrite (cmp_all_pairs_inf p a b va vb), (eq_all_pairs_inf p a b va vb) by assumption. cbn [bind].
+  do 3 eexists. split; [reflexivity|]. split; [reflexivity|]. split; [reflexivity|].
+  destruct (xq_cmp va vb); cbn [is_Eq]; tauto.
+Qed.
